@@ -1,11 +1,66 @@
-(* C13 - OpenQASM export denotes the same program the simulator executes. (Extended below.) *)
+(* C13 - OpenQASM export denotes the same program the simulator executes.
+   Only the property theorems, closed by `exact`, with their assumptions and non-vacuity examples. *)
 From Coq Require Import List NArith ZArith Bool Ascii String.
-From QI Require Import Base.Scalar Model.Outcome Model.Gates Spec.QasmLex Spec.QasmGrammar Spec.QasmSem Run.ZInst.
+From QI Require Import Base.ListAux Base.Scalar Model.Outcome Model.Validate Model.Gates Model.StateOps Model.StateCtor Model.Measure
+  Model.Circuit Model.GateEnum Model.Qasm Model.QasmLower Spec.QasmLex Spec.QasmGrammar Spec.QasmSem Proofs.C13 Run.ZInst.
 Import ListNotations.
 Open Scope string_scope.
+Open Scope list_scope.
 
-(* the meaning function reads gate names as their standard matrices: a computed sanity instance over the integers
-   (x, z, swap, ctrl @ x on a 2-qubit basis-like vector) *)
+(* For every circuit of standard-named gates (h x y z s t sdg tdg id p rx ry rz, CNOT, Toffoli, SWAP; any controls) and
+   measurement gates in the computational, X or Y basis - any length, register, arguments, input state, stream of draws,
+   either CPU path - whose execution succeeds: the abstract syntax the exporter emits for it (one gate call per gate
+   with the controls leading the operands, `ctrl(n) @`, the printed angle; one register per measurement group with one
+   assignment per listed qubit), read with the standard meaning of the gate names and with the routines the emitted
+   header defines, yields EXACTLY the state Circuit::execute returns. `lit` gives cos/sin of a printed literal; the
+   hypothesis lit_ok says the literal denotes the gate's angle (checked on the real text: the literal round-trips). *)
+Theorem C13_export_sound :
+  forall (T : Type) (O : sops T) (of_N : N -> T) (eps tol : T) (lit : qexpr -> T * T * T * T) (par : bool)
+         (xs : list (xgate (T:=T))) (is : list instr) (k : N) (st : state (T:=T)) (draws : list T) w',
+  lower_all xs = Some is -> Forall (lit_ok lit) xs -> Forall meas_ok xs ->
+  Circuit.run_gates (gate_apply O of_N eps tol par) (map to_gate xs) (st, draws) = Ok w' ->
+  run_items O of_N eps tol lit par header_defs (group_items (body_stmts k is) None) st draws = Ok (fst w').
+Proof. exact @export_sound. Qed.
+Print Assumptions C13_export_sound.
+
+(* one statement: the gate call emitted for an operator gate names an operator that acts exactly as the executed one *)
+Theorem C13_gate_statement_sound :
+  forall (T : Type) (O : sops T) (lit : qexpr -> T * T * T * T) (par : bool) g l ts cs name ps ts' cs' (st s : state (T:=T)),
+  lower (XOp g l ts cs) = Some (IGate name ps ts' cs') -> lit_ok lit (XOp g l ts cs) ->
+  apply_op O par g st ts cs = Ok s ->
+  exists g', gate_op O lit name (map lit_expr ps) = Some g' /\ apply_op O par g' st ts' cs' = Ok s.
+Proof. exact @gate_statement_sound. Qed.
+Print Assumptions C13_gate_statement_sound.
+
+(* the assignments of one measurement group are read back as ONE group in listed-qubit order, whatever follows *)
+Theorem C13_measurement_group_read_back :
+  forall k kind qs rest, qs <> [] -> head_ok k rest ->
+  group_items (map (fun jq => SMeasure k (fst jq) kind (snd jq)) (enum_from 0%N qs) ++ rest) None = ItMeas kind qs :: group_items rest None.
+Proof. exact group_meas. Qed.
+Print Assumptions C13_measurement_group_read_back.
+
+(* the routines defined by the header the exporter writes are the ones the theorem uses (parsed from the token model) *)
+Example C13_header_routines :
+  match p_program (program_toks 2 []) with Some stmts => routines stmts = header_defs | None => False end.
+Proof. vm_compute. reflexivity. Qed.
+
+(* non-vacuity: a concrete circuit satisfies the hypotheses, and over the integers the emitted syntax and the execution
+   agree on a computed instance (x; ctrl(1) @ x; swap; z) *)
+Example C13_nonvacuous :
+  let xs : list (xgate (T:=Z)) := [XOp OpX None [0%N] []; XOp OpCNOT None [1%N] [0%N]; XOp OpSWAP None [0%N; 1%N] []; XOp OpZ None [1%N] []] in
+  let st := mkState (T:=Z) 2%N [(5%Z, 0%Z); (0%Z, 0%Z); (0%Z, 0%Z); (0%Z, 0%Z)] in
+  match lower_all xs with
+  | Some is =>
+      Forall meas_ok xs /\
+      Circuit.run_gates (gate_apply zops (fun _ => 0%Z) 0%Z 0%Z false) (map to_gate xs) (st, []) =
+        Ok (mkState (T:=Z) 2%N [(0%Z, 0%Z); (0%Z, 0%Z); (0%Z, 0%Z); (Z.opp 5%Z, 0%Z)], []) /\
+      run_items zops (fun _ => 0%Z) 0%Z 0%Z (fun _ => (1%Z, 0%Z, 1%Z, 0%Z)) false header_defs (group_items (body_stmts 0%N is) None) st [] =
+        Ok (mkState (T:=Z) 2%N [(0%Z, 0%Z); (0%Z, 0%Z); (0%Z, 0%Z); (Z.opp 5%Z, 0%Z)])
+  | None => False
+  end.
+Proof. vm_compute. repeat split; repeat constructor. Qed.
+
+(* the meaning function on real text: a computed sanity instance *)
 Example C13_semantics_sanity :
   let prog := "OPENQASM 3.0; include ""stdgates.inc""; qubit[2] q; x q[0]; ctrl(1) @ x q[0], q[1]; swap q[0], q[1]; z q[1];" in
   match p_program (lex prog) with
